@@ -40,6 +40,10 @@ const (
 )
 
 func paPtr(i int) string {
+	if i == -2 {
+		return "/arr/-1" // (no array index)
+	}
+
 	if i < 0 {
 		return "/arr/-"
 	}
@@ -49,7 +53,7 @@ func paPtr(i int) string {
 
 // elements are objects (what arrays of a DID document usually hold), recognisable by their value
 func paElem(v int) interface{} {
-	return map[string]interface{}{"v": float64(v), "tag": fmt.Sprintf("e%d", v)}
+	return map[string]interface{}{"v": float64(v), "tag": fmt.Sprintf("e%d <&> \u2028", v)} // (characters that HTML-minded JSON writers escape)
 }
 
 func paValue(v interface{}) int {
